@@ -68,7 +68,8 @@ def floors(tier):
     return {"distinct_nontrivial": 500, "cls:nested": 300, "cls:flat": 1000, "cls:body:or": 500, "cls:body:not": 100,
             "cls:zero_solutions": 100, "cls:positional": 100, "cls:nvars=2": 300, "cls:nvars=3": 300,
             "cls:caching_off": 300, "instances_checked": 5000, "cls:f2:const": 100, "cls:f2:call": 50, "cls:special:flatten": 150, "cls:special:preused_as_condition": 150,
-            "cls:rule_variable_with_empty_domain": 100, "cls:special:subquery_head_argument": 150, "cls:special:concatenate_head_argument": 120, "cls:preceded_by_an_abandoned_evaluation": 1000}
+            "cls:rule_variable_with_empty_domain": 100, "cls:special:subquery_head_argument": 150, "cls:special:concatenate_head_argument": 120, "cls:preceded_by_an_abandoned_evaluation": 1000,
+            "cls:preceded_by_an_evaluation_under_the_other_caching_switch": 300}
 
 
 def gen_case(rng):
@@ -107,7 +108,7 @@ def gen_case(rng):
     tags = [[rng.randrange(n0), rng.randint(1, 3)] for _ in range(rng.randint(0, n0 + 2))] if nested else []
     empty_domain = rng.randrange(nv) if (rng.random() < 0.05 and special is None) else None
     return {"world": world, "kinds": kinds, "cond": cond, "f2": f2, "nested": nested, "tags": tags, "empty_domain": empty_domain,
-            "take_first": rng.choice([0, 0, 1, 2]),
+            "take_first": rng.choice([0, 0, 1, 2]), "other_switch_first": rng.random() < 0.15,
             "nested_how": rng.choice(["from", "registry"]), "positional": rng.random() < 0.15, "caching": rng.random() < 0.7,
             "special": special}
 
@@ -203,6 +204,11 @@ def run(case, world, caching, times=1, tags=()):
             body = extra_conds + body if sp.get("order") else body + extra_conds
             q = infer(entity(head, *body))
         outs = []
+        if case.get("other_switch_first"):      # an earlier COMPLETE evaluation while the caching switch was the other way round
+            (disable_caching if caching else enable_caching)()
+            for _ in q.evaluate():
+                pass
+            (enable_caching if caching else disable_caching)()
         if case.get("take_first"):      # an earlier evaluation of the rule that is left after a few instances
             it = q.evaluate()
             for _ in range(case["take_first"]):
@@ -338,6 +344,8 @@ def check_case(case, ctx):
     ctx.cls("cls:nested" if case["nested"] else "cls:flat")
     if case.get("empty_domain") is not None:
         ctx.cls("cls:rule_variable_with_empty_domain")
+    if case.get("other_switch_first"):
+        ctx.cls("cls:preceded_by_an_evaluation_under_the_other_caching_switch")
     if case.get("take_first"):
         ctx.cls("cls:preceded_by_an_abandoned_evaluation")
     ctx.cls("cls:caching_on" if case["caching"] else "cls:caching_off")
